@@ -25,7 +25,9 @@ registry! {
     "C04" => c04,
     "C05" => c05,
     "C06" => c06,
+    "C20" => c20,
     "C21" => c21,
+    "C24" => c24,
     "C07" => c07,
     "C11" => c11,
     "C12" => c12,
